@@ -198,3 +198,37 @@ def profile_point_params(r):
     else:
         c2, c1, c0 = k, -k * (T1 + T2), k * T1 * T2
     return f"{branch}/{shape}", (Tn, Tplus, Tminus, tmin, c0, c1, c2)
+
+
+# ---------------------------------------------------------------- findPlasmaProfile loop and success flag (Model.ProfileLoop)
+
+def scripted_profile_loop(pts):
+    """Runs the REAL EOM.findPlasmaProfile on an object whose findPlasmaProfilePoint returns the scripted (T, v) pairs in order.
+    Returns the line Driver/ProfileLoopF prints."""
+    from types import SimpleNamespace
+    import numpy as np
+    import WallGo.equationOfMotion as EM
+    import common as C
+    eom = EM.EOM.__new__(EM.EOM)
+    eom.grid = SimpleNamespace(xiValues=np.zeros(len(pts)))
+    eom.successTemperatureProfile = None
+    eom.findPlasmaProfilePoint = lambda index, *a, **k: pts[index]
+    stubFields = SimpleNamespace(getFieldPoint=lambda i: None)
+    Tprof, vprof = EM.EOM.findPlasmaProfile(eom, -1.0, 1.0, -0.5, stubFields, stubFields, None, 1.0, 1.0)
+    return f"{1 if eom.successTemperatureProfile else 0} " + " ".join(f"{C.f2b(float(a))}:{C.f2b(float(b))}" for a, b in zip(Tprof, vprof))
+
+
+def profile_loop_params(r):
+    n = r.randint(1, 12)
+    style = r.choice(("all-ok", "all-ok", "one-failure", "first-fails", "several", "negative-T"))
+    pts = [(r.uniform(0.5, 2.0), -r.uniform(0.1, 0.9)) for _ in range(n)]
+    if style == "one-failure":
+        pts[r.randint(0, n - 1)] = (0, 0)
+    elif style == "first-fails":
+        pts[0] = (0, 0)
+    elif style == "several":
+        for _ in range(r.randint(2, 4)):
+            pts[r.randint(0, n - 1)] = (0, 0)
+    elif style == "negative-T":
+        pts[r.randint(0, n - 1)] = (-r.uniform(0.1, 1.0), -0.3)
+    return style, pts
